@@ -213,6 +213,9 @@ def perturb(draw, base, nmoves):
 SHAPES = ["complete", "incomplete", "sparse_block", "near_unanimous", "identical", "near_unanimous_incomplete",
           "cyclic", "cyclic_incomplete", "block_cyclic", "cyclic_ties", "mixture", "floaters", "camps"]
 BASE_SHAPES = SHAPES[:9]
+# not in SHAPES (thousands of rankings are too heavy for the generic checks): a few distinct ballots with large
+# multiplicities, i.e. large scores with small absolute differences between candidates
+EXTRA_SHAPES = ["election", "large_uniform"]
 
 
 @st.composite
@@ -324,6 +327,25 @@ def datasets(draw, max_n=7, max_m=5, min_n=1, shapes=None, kinds=None, allow_emp
             i = draw(st.integers(0, len(rankings) - 1))
             gone = {e for e, q in zip(names, drop) if q == 0}
             rankings[i] = [b2 for b2 in ([e for e in b if e not in gone] for b in rankings[i]) if b2]
+    elif shape == "election":
+        # 'many voters, few candidates, close contest': 3-5 unrelated ballots (mostly strict orders) with large,
+        # nearly equal multiplicities
+        ballots = []
+        for _ in range(draw(st.sampled_from([3, 4, 4, 5]))):
+            b = [[e] for e in draw(st.permutations(names))]
+            if draw(st.integers(0, 4)) == 0:
+                b = draw(perturb(b, 1))
+            ballots.append(b)
+        big = draw(st.sampled_from([200, 400, 400, 500]))
+        for idx, r in enumerate(ballots):
+            k = draw(st.sampled_from([big, big, big + 1, big - 1, 2 * big, big // 2]))
+            for _ in range(k):
+                rankings.append([list(b) for b in r])
+    elif shape == "large_uniform":
+        # as many rankings as elements, all unrelated strict orders: scores in the thousands
+        m = draw(st.sampled_from(list(range(max(8, n - 5), n + 6))))
+        for _ in range(m):
+            rankings.append([[e] for e in draw(st.permutations(names))])
     elif shape == "floaters":
         # a structured core (some base shape over the first names) plus one or two 'floating' elements that are only
         # co-ranked with a few elements of the core, inside a cycle with them: incomparable with most of the core, yet
